@@ -83,7 +83,7 @@ func (g *Gen) Next(m *Model, mounted []string) Op {
 	x := r.Intn(1000)
 	w := []int{400, 70, 150, 110, 100, 50, 30, 20, 20, 40, 10} // prepare view commit mounts remove cleanup update stat walk toggle reopen
 	if g.P.CrashHistory {
-		w = []int{430, 50, 190, 40, 150, 60, 30, 0, 0, 20, 30}
+		w = []int{430, 50, 190, 40, 150, 60, 30, 0, 0, 20, 60}
 	}
 	if !g.P.Reopen {
 		w[10] = 0
